@@ -94,6 +94,7 @@ type k11Case struct {
 	Clients  int     `json:"clients"`
 	Ops      []k11Op `json:"ops"`
 	// cluster only (c11_cluster_test.go)
+	NoGuard   bool `json:"noguard,omitempty"` // replay only: do not replace APPEND/SHIFT that meet an array value
 	Followers int `json:"followers,omitempty"`
 	AckMode   int `json:"ackmode,omitempty"` // 1 majority, 2 all
 }
@@ -216,6 +217,7 @@ type k11Info struct {
 	dataFaultSucceeded, dataFaultFailed             int
 	knownReentrant, knownLateReply                  int
 	skippedDupQueued, excludedRollback              int
+	excludedBytesOnArray, keyFreedWithFailure       int
 	// cluster
 	ackFramesForwarded, ackFramesNegated, ackFramesDropped, ackFramesDelayed int
 	decidedByFollower, demotions, demotedPending, failedByFollower         int
@@ -271,6 +273,7 @@ type k11Env struct {
 	closedData  *os.File
 	inconcl     string
 	known       func(string) bool
+	noTypeGuard bool // replay of the malformed-array crash
 
 	// cluster hooks (nil on a single node)
 	ackGate func(r *k11Req) string // extra ordering check at SUCCED time
@@ -320,6 +323,7 @@ func k11NewEnv(c *k11Case, opts vInstOpts, inst *vInst) (*k11Env, error) {
 	e := &k11Env{c: c, inst: inst, now: k11Epoch, epoch: k11Epoch, keys: map[int]*k11Key{}, succ: map[string]int{}}
 	e.info.failResults, e.info.valueKindsFailed = map[string]bool{}, map[string]bool{}
 	e.known = vIsKnown
+	e.noTypeGuard = c.NoGuard
 	d := inst.slock.GetOrNewDB(0)
 	d.currentTime, d.checkTimeoutTime, d.checkExpriedTime = e.now, e.now, e.now
 	e.db = d
@@ -501,7 +505,21 @@ func (e *k11Env) onPendingFailed(k *k11Key, h *k11Hold, r *k11Req, rp *k11Reply,
 	e.info.valueRestoreChecked++
 	if err != nil {
 		e.viol("C11:value-not-restored", "%s reply to failed ack request #%d carries a malformed value frame: %v", aResultName(rp.Result), r.Idx, err)
+	} else if got == nil && len(k.holders) == 0 && len(k.waiters) == 0 {
+		// nothing holds or awaits the key any more: the key and its value may already have been released (the
+		// reply value is read after the key mutex was dropped; the writer goroutine can free the key in between)
+		e.info.keyFreedWithFailure++
 	} else if !aValueEqual(got, r.pre) {
+		if os.Getenv("VERIF_K11_TRACE") != "" {
+			cmd := &protocol.LockCommand{}
+			cmd.LockKey = r.Key
+			m := e.db.GetLockManager(cmd)
+			if m == nil {
+				e.logf("  (debug) key manager is gone at reply time")
+			} else {
+				e.logf("  (debug) key manager refCount=%d locked=%d waited=%v currentData=%v", m.refCount, m.locked, m.waited, m.currentData)
+			}
+		}
 		e.viol(k11UndoKey(r), "request #%d (%v) %s: its %s reply carries value %s, the value before the request was %s", r.Idx, r.Op, why, aResultName(rp.Result), got.String(), r.pre.String())
 		e.sig("reply op=%s before=%s after=%s", r.Op.V.Op, k11ValKind(r.pre), k11ValKind(got))
 	}
@@ -734,6 +752,24 @@ func (e *k11Env) onUnlockReply(k *k11Key, r *k11Req, rp *k11Reply) {
 	}
 }
 
+// k11BytesOpSafe: APPEND / SHIFT are only sent when they are applied at once (idle key) to a value that is
+// not an array.
+func k11BytesOpSafe(d *LockDB, op k11Op, before *aSnapKey) bool {
+	if before == nil {
+		return true
+	}
+	if len(before.Holders) > 0 || len(before.Waiters) > 0 {
+		return false
+	}
+	cmd := &protocol.LockCommand{}
+	cmd.DbId, cmd.LockKey = 0, aKey(op.Key)
+	m := d.GetLockManager(cmd)
+	if m == nil || m.currentData == nil {
+		return true
+	}
+	return !m.currentData.IsArrayValue()
+}
+
 func k11UndoKey(r *k11Req) string {
 	if r.exactUndo {
 		return "C11:value-not-restored"
@@ -845,6 +881,17 @@ func (e *k11Env) send(op k11Op) {
 			}
 		}
 		e.mu.Unlock()
+		if op.V != nil && (op.V.Op == "append" || op.V.Op == "shift") && !e.noTypeGuard && !k11BytesOpSafe(e.db, op, before) {
+			// C15 domain, not C11: APPEND / SHIFT applied to an array value leave a malformed array, and every later
+			// walk over it (POP, the roll-back of PUSH / POP) slices out of range. Such values are not produced.
+			e.logf("value operation %v replaced by set (could meet an array value)", op.V)
+			b := op.V.B
+			if len(b) == 0 {
+				b = []byte{byte(op.V.N)}
+			}
+			op.V = &aVal{Op: "set", B: b}
+			e.info.excludedBytesOnArray++
+		}
 		if op.Ack && op.V != nil && e.known(k11KeyRollback) && !k11RollbackExact(e.db, op, before) {
 			e.logf("value operation %v replaced by set (known finding %s)", op.V, k11KeyRollback)
 			nv := &aVal{Op: "set", B: op.V.B}
